@@ -1,77 +1,258 @@
-(** C10 — bridge (partial): for the F4Jumble and constructor cases, agreement of the
-    implementation with the model implies the property on the implementation's outcome.
-    (The other constructors are tied by [run_case] and checked by [prop_case] at run time; a
-    bridge for them needs the Bech32 checksum algebra and Base58 round trip, not proved.) *)
+(** C10 — bridge: on a well-formed case outside the known-finding class, agreement of the
+    implementation with the model ([run_case]) implies the property on the implementation's
+    outcome ([prop_case]), for every case constructor. For [CEnc] of a Base58Check kind the case
+    must also satisfy the visible guard (part of [wf_case]) that the produced string is not by accident a valid
+    Bech32/Bech32m string. *)
 From Coq Require Import String.
 From V.Lib Require Import Base Hex.
 From V.Gen Require Import C10Consts.
-From V.C10 Require Import Model Spec Corr Wf PF4 PCs PCont PTop.
-From Coq Require Import List Lia ZifyBool.
+From V.C10 Require Import Model Spec Corr Wf PF4 PCs PCont PTop PRegroup PB32a PB32b PB58 PCompl PTop2 PSort.
+From Coq Require Import Permutation.
+From Coq Require Import List Lia ZifyBool ZifyNat.
 Local Open Scope N_scope.
+
+Ltac Zify.zify_post_hook ::= Z.div_mod_to_equations.
+
+(** * boolean equalities *)
+Lemma bytes_eqb_refl b : bytes_eqb b b = true.
+Proof. apply bytes_eqb_eq. reflexivity. Qed.
 
 Lemma bres_eqb_eq (a b : bres) : bres_eqb a b = true -> a = b.
 Proof.
   destruct a as [x| []|], b as [y|[]|]; cbn; try discriminate; try reflexivity.
   intros E. apply bytes_eqb_eq in E. congruence.
 Qed.
-Lemma opt_bres_eqb_eq (a b : option bres) : opt_bres_eqb a b = true -> a = b.
+Lemma sres_eqb_refl (a : sres) : sres_eqb a a = true.
+Proof. destruct a as [x|[]|]; cbn; [apply bytes_eqb_refl | reflexivity | reflexivity]. Qed.
+
+Lemma option_eqb_true {A} (eqa : A -> A -> bool) x y :
+  (forall a b, eqa a b = true -> a = b) -> option_eqb eqa x y = true -> x = y.
+Proof. intros Hq. destruct x, y; cbn; try discriminate; [intros E; f_equal; apply Hq; exact E | reflexivity]. Qed.
+
+Lemma net_eqb_eq a b : net_eqb a b = true -> a = b.
+Proof. destruct a, b; cbn; congruence. Qed.
+Lemma net_eqb_refl a : net_eqb a a = true.
+Proof. destruct a; reflexivity. Qed.
+
+Lemma items_eqb_eq : forall a b, items_eqb a b = true -> a = b.
 Proof.
-  destruct a as [x|], b as [y|]; cbn; try discriminate; try reflexivity.
-  intros E. apply bres_eqb_eq in E. congruence.
+  induction a as [|[t d] r IH]; intros [|[t' d'] r']; cbn; try discriminate; [reflexivity|].
+  intros E. apply andb_true_iff in E as [E1 E2]. unfold item_eqb in E1. cbn [fst snd] in E1.
+  apply andb_true_iff in E1 as [Et Ed]. apply N.eqb_eq in Et. apply bytes_eqb_eq in Ed.
+  rewrite (IH _ E2). congruence.
+Qed.
+Lemma items_eqb_refl a : items_eqb a a = true.
+Proof.
+  induction a as [|[t d] r IH]; [reflexivity|]. cbn. unfold item_eqb at 1. cbn [fst snd].
+  rewrite N.eqb_refl, bytes_eqb_refl. exact IH.
 Qed.
 
-Lemma spec_len_valid (m : bytes) : spec_f4_len (len m) = f4_valid_len (length m).
-Proof. reflexivity. Qed.
-
-Definition bridged (c : case) : bool :=
-  match c with CJumble _ _ _ _ | CJumbleInv _ _ _ _ | CCtor _ _ _ _ => true | _ => false end.
+Lemma uerr_eqb_eq a b : uerr_eqb a b = true -> a = b.
+Proof.
+  destruct a, b; cbn; try discriminate; try reflexivity; intros E;
+    try (apply N.eqb_eq in E; congruence). apply bytes_eqb_eq in E. congruence.
+Qed.
+Lemma perr_eqb_eq a b : perr_eqb a b = true -> a = b.
+Proof. destruct a, b; cbn; try discriminate; try reflexivity. intros E. apply uerr_eqb_eq in E. congruence. Qed.
 
 Lemma addr_eqb_refl a : addr_eqb a a = true.
 Proof.
-  assert (B : forall b, bytes_eqb b b = true) by (intros; apply bytes_eqb_eq; reflexivity).
   destruct a as [n k d|n items]; cbn.
-  - rewrite B. destruct n, k; reflexivity.
-  - assert (I : items_eqb items items = true).
-    { induction items as [|[t d] r IH]; [reflexivity|]. cbn. unfold item_eqb at 1. cbn [fst snd].
-      rewrite N.eqb_refl, B. exact IH. }
-    rewrite I. destruct n; reflexivity.
+  - rewrite bytes_eqb_refl. destruct n, k; reflexivity.
+  - rewrite items_eqb_refl, net_eqb_refl. reflexivity.
 Qed.
-
 Lemma addr_eqb_eq a b : addr_eqb a b = true -> a = b.
 Proof.
   destruct a as [n k d|n items], b as [n' k' d'|n' items']; cbn; try discriminate.
   - intros E. apply andb_true_iff in E as [E Ed]. apply andb_true_iff in E as [En Ek].
-    apply bytes_eqb_eq in Ed. destruct n, n'; try discriminate; destruct k, k'; try discriminate; congruence.
-  - intros E. apply andb_true_iff in E as [En Ei].
-    assert (items = items').
-    { revert items' Ei. induction items as [|[t d] r IH]; intros [|[t' d'] r']; cbn; try discriminate; [reflexivity|].
-      intros E. apply andb_true_iff in E as [E1 E2]. unfold item_eqb in E1. cbn [fst snd] in E1.
-      apply andb_true_iff in E1 as [Et Ed]. apply N.eqb_eq in Et. apply bytes_eqb_eq in Ed.
-      rewrite (IH _ E2). congruence. }
-    destruct n, n'; try discriminate; congruence.
+    apply bytes_eqb_eq in Ed. apply net_eqb_eq in En. destruct k, k'; try discriminate; congruence.
+  - intros E. apply andb_true_iff in E as [En Ei]. apply net_eqb_eq in En. apply items_eqb_eq in Ei. congruence.
 Qed.
 
-Theorem agree_implies_property_partial c :
-  bridged c = true -> wf_case c = true -> known_class c = 0 -> run_case c = true -> prop_case c = true.
+Lemma ures_eqb_eq (a b : ures) : ures_eqb a b = true -> a = b.
 Proof.
-  destruct c; cbn [bridged]; try discriminate; intros _ W K R.
+  destruct a as [[n i]|e|], b as [[n' i']|e'|]; cbn; try discriminate; try reflexivity.
+  - unfold pair_eqb. cbn [fst snd]. intros E. apply andb_true_iff in E as [En Ei].
+    apply net_eqb_eq in En. apply items_eqb_eq in Ei. congruence.
+  - intros E. apply uerr_eqb_eq in E. congruence.
+Qed.
+Lemma ares_eqb_eq (a b : ares) : ares_eqb a b = true -> a = b.
+Proof.
+  destruct a as [x|e|], b as [y|e'|]; cbn; try discriminate; try reflexivity.
+  - intros E. apply addr_eqb_eq in E. congruence.
+  - intros E. apply perr_eqb_eq in E. congruence.
+Qed.
+
+(** * the hash tables of a well-formed case are byte-valued *)
+Lemma hg_lookup_bytes t : wf_tbl t = true -> forall tag i j x, is_bytes (hg_lookup t tag i j x) = true.
+Proof.
+  unfold wf_tbl. induction t as [|[[[[tg i'] j'] x'] y] r IH]; intros W tag i j x; [reflexivity|].
+  cbn [forallb] in W. apply andb_true_iff in W as [We Wr]. cbn [hg_lookup].
+  destruct (_ && _ && _ && _); [|apply IH; exact Wr].
+  unfold wf_entry in We. apply andb_true_iff in We as [_ Hy]. exact Hy.
+Qed.
+Lemma H_of_bytes t : wf_tbl t = true -> forall i l x, is_bytes (H_of t i l x) = true.
+Proof. intros W i l x. apply hg_lookup_bytes. exact W. Qed.
+Lemma G_of_bytes t : wf_tbl t = true -> forall i j x, is_bytes (G_of t i j x) = true.
+Proof. intros W i j x. unfold G_of. apply firstn_is_bytes, skipn_is_bytes, hg_lookup_bytes. exact W. Qed.
+
+(** * CompactSize: the specification's shortest form is what the writer produces *)
+Lemma spec_cs_eq n : spec_cs n = cs_write n.
+Proof.
+  unfold spec_cs, cs_write.
+  destruct (N.ltb_spec n 253); [reflexivity|].
+  destruct (N.ltb_spec n 65536), (N.leb_spec n 65535); try lia.
+  - cbn [le_n]. do 3 f_equal. symmetry. apply N.mod_small. apply N.div_lt_upper_bound; lia.
+  - destruct (N.ltb_spec n 4294967296), (N.leb_spec n 4294967295); try lia; [|reflexivity].
+    cbn [le_n]. rewrite !N.div_div by lia. change (256 * 256) with 65536. change (65536 * 256) with 16777216.
+    do 5 f_equal. symmetry. apply N.mod_small. apply N.div_lt_upper_bound; lia.
+Qed.
+
+Lemma cs_write_size n : len (cs_write n) = cs_size n.
+Proof.
+  unfold cs_write, cs_size, len. destruct (n <? 253); [reflexivity|]. destruct (n <=? 65535); [reflexivity|].
+  destruct (n <=? 4294967295); reflexivity.
+Qed.
+
+Lemma raw_len_spec items : len (raw_encoding items) = spec_raw_len_items items.
+Proof.
+  induction items as [|[t d] r IH]; [reflexivity|].
+  unfold raw_encoding in *. cbn [map concat fold_right spec_raw_len_items]. fold (spec_raw_len_items r).
+  rewrite len_app, IH. unfold write_item. cbn [fst snd]. rewrite !len_app, !cs_write_size. lia.
+Qed.
+
+(** the encodable class of Spec.v is exactly "the encoder does not panic" *)
+Lemma encodable_encodes H G k n items :
+  spec_encodable (hrp_unified k n) items = true -> exists s, unified_encode H G k n items = Ok s.
+Proof.
+  unfold spec_encodable. cbv zeta. intros E. apply andb_true_iff in E as [E1 E2].
+  pose proof (raw_len_spec items) as RL. pose proof (hrp_unified_short k n) as Lh.
+  set (hrp := hrp_unified k n) in *.
+  assert (LP : length (raw_encoding items ++ padding hrp) = (length (raw_encoding items) + 16)%nat).
+  { rewrite app_length, padding_length by exact Lh. reflexivity. }
+  assert (V : f4_valid_len (length (raw_encoding items ++ padding hrp)) = true).
+  { unfold f4_valid_len. change F4_MIN with 48. change F4_MAX with 4194368. rewrite LP. unfold len in *. lia. }
+  destruct (f4jumble_bijection H G _ V) as [[j [Fj [Lj _]]] _].
+  unfold unified_encode, to_jumbled_bytes. fold hrp. change (N.to_nat PADDING_LEN) with 16%nat.
+  destruct (Nat.ltb_spec 16 (length hrp)); [lia|]. rewrite Fj.
+  unfold b32_encode. cbv zeta.
+  pose proof (bytes_to_fes_length j) as Lf.
+  destruct (N.ltb_spec ZIP316_CODE_LENGTH (len hrp + 1 + len (bytes_to_fes j) + 6)) as [C|_]; [|eexists; reflexivity].
+  exfalso. change ZIP316_CODE_LENGTH with 4194368 in C. unfold len in *. rewrite Lf, Lj, LP in C.
+  unfold bytes, item in *. lia.
+Qed.
+
+Lemma not_bech32b_spec s : not_bech32b s = true -> not_bech32 s.
+Proof.
+  unfold not_bech32b, not_bech32. destruct (b32_decode B32m ZIP316_CODE_LENGTH s); [discriminate|].
+  destruct (b32_decode B32 BECH32_CODE_LENGTH s); [discriminate|].
+  destruct (b32_decode B32m BECH32_CODE_LENGTH s); [discriminate|]. auto.
+Qed.
+
+Lemma item_eqb_refl it : item_eqb it it = true.
+Proof. unfold item_eqb. rewrite N.eqb_refl, bytes_eqb_refl. reflexivity. Qed.
+Lemma in_existsb it l : In it l -> existsb (item_eqb it) l = true.
+Proof. intros I. apply existsb_exists. exists it. split; [exact I | apply item_eqb_refl]. Qed.
+
+Lemma spec_len_valid (m : bytes) : spec_f4_len (len m) = f4_valid_len (length m).
+Proof. reflexivity. Qed.
+
+Lemma shared_b58 k : spec_shared k = is_b58 k.
+Proof. destruct k; reflexivity. Qed.
+
+Theorem agree_implies_property c :
+  wf_case c = true -> known_class c = 0 -> run_case c = true -> prop_case c = true.
+Proof.
+  destruct c; intros W K R.
   - (* CJumble *)
     cbn [run_case prop_case] in *. apply andb_true_iff in R as [R1 R2].
-    apply bres_eqb_eq in R1. apply opt_bres_eqb_eq in R2. subst o back.
+    apply bres_eqb_eq in R1. apply (option_eqb_true _ _ _ bres_eqb_eq) in R2. subst o back.
     rewrite spec_len_valid. destruct (f4_valid_len (length m)) eqn:V.
     + destruct (f4jumble_bijection (H_of t) (G_of t) m V) as [[y [E [L I]]] _].
       rewrite E. cbn [u2b on_ok]. rewrite I. cbn [u2b].
-      unfold len. rewrite L, N.eqb_refl. apply bytes_eqb_eq. reflexivity.
+      unfold len. rewrite L, N.eqb_refl. apply bytes_eqb_refl.
     + destruct (f4jumble_invalid (H_of t) (G_of t) m V) as [E _]. rewrite E. reflexivity.
   - (* CJumbleInv *)
     cbn [run_case prop_case] in *. apply andb_true_iff in R as [R1 R2].
-    apply bres_eqb_eq in R1. apply opt_bres_eqb_eq in R2. subst o back.
+    apply bres_eqb_eq in R1. apply (option_eqb_true _ _ _ bres_eqb_eq) in R2. subst o back.
     rewrite spec_len_valid. destruct (f4_valid_len (length m)) eqn:V.
     + destruct (f4jumble_bijection (H_of t) (G_of t) m V) as [_ [y [E [L I]]]].
       rewrite E. cbn [u2b on_ok]. rewrite I. cbn [u2b].
-      unfold len. rewrite L, N.eqb_refl. apply bytes_eqb_eq. reflexivity.
+      unfold len. rewrite L, N.eqb_refl. apply bytes_eqb_refl.
     + destruct (f4jumble_invalid (H_of t) (G_of t) m V) as [_ E]. rewrite E. reflexivity.
+  - (* CCsRead *)
+    cbn [run_case prop_case wf_case] in *.
+    destruct (cs_read b) as [[n r]|e|] eqn:Rd.
+    + destruct (cs_canonical _ _ _ W Rd) as [Eb Mx]. change MAX_COMPACT_SIZE with 33554432 in Mx.
+      destruct o as [[n' c]|e|]; cbn in R; try discriminate.
+      unfold pair_eqb in R. cbn [fst snd] in R. apply andb_true_iff in R as [Rn Rc].
+      apply N.eqb_eq in Rn, Rc. subst n' c.
+      assert (Lc : len b - len r = len (cs_write n)) by (rewrite Eb at 1; rewrite len_app; lia).
+      rewrite Lc, spec_cs_eq.
+      assert (F : firstn (N.to_nat (len (cs_write n))) b = cs_write n).
+      { rewrite Eb. unfold len. rewrite Nat2N.id, firstn_app, Nat.sub_diag, firstn_all, firstn_O. apply app_nil_r. }
+      rewrite F, bytes_eqb_refl. rewrite Eb at 1. rewrite len_app. lia.
+    + destruct o; cbn in R; try discriminate. reflexivity.
+    + exfalso. exact (cs_read_not_panic _ Rd).
+  - (* CCsWrite *)
+    cbn [run_case prop_case] in *. apply bres_eqb_eq in R. subst o. unfold cs_write_checked.
+    change MAX_COMPACT_SIZE with 33554432.
+    destruct (N.ltb_spec 33554432 n); [lia|]. rewrite spec_cs_eq, bytes_eqb_refl. lia.
+  - (* CFromItems *)
+    cbn [run_case prop_case] in *. pose proof (try_from_items_spec items) as T.
+    destruct (try_from_items items) as [l|e|]; [| |contradiction].
+    + destruct o as [l'|e'|]; cbn in R; try discriminate. apply items_eqb_eq in R. subst l'.
+      destruct T as [P [C _]]. rewrite C. cbn [andb].
+      rewrite (Permutation_length P), Nat.eqb_refl. cbn [andb].
+      apply andb_true_iff. split; apply forallb_forall; intros it I; apply in_existsb.
+      * apply (Permutation_in _ P). exact I.
+      * apply (Permutation_in _ (Permutation_sym P)). exact I.
+    + destruct o as [l'|e'|]; cbn in R; try discriminate. rewrite T. reflexivity.
+  - (* CUEnc *)
+    cbn [run_case prop_case wf_case known_class] in *.
+    apply andb_true_iff in W as [Wi Wt]. apply andb_true_iff in R as [R1 R2].
+    apply bres_eqb_eq in R1. apply (option_eqb_true _ _ _ ures_eqb_eq) in R2. subst o back.
+    destruct (spec_encodable (hrp_unified k n) items) eqn:Se; [|discriminate].
+    destruct (encodable_encodes (H_of t) (G_of t) k n items Se) as [s E]. rewrite E. cbn [on_ok].
+    destruct (unified_roundtrip _ _ (H_of_bytes t Wt) (G_of_bytes t Wt) k n items s Wi E) as [D _].
+    rewrite D, net_eqb_refl, items_eqb_refl. reflexivity.
+  - (* CUDec *)
+    cbn [run_case prop_case wf_case] in *.
+    apply andb_true_iff in W as [_ Wt]. apply andb_true_iff in R as [R1 R2].
+    apply ures_eqb_eq in R1. apply (option_eqb_true _ _ _ bres_eqb_eq) in R2. subst o re.
+    destruct (unified_decode (H_of t) (G_of t) k s) as [[n items]|e|] eqn:D.
+    + destruct (unified_accept_canonical _ _ (H_of_bytes t Wt) (G_of_bytes t Wt) _ _ _ _ D) as [Wf E].
+      rewrite Wf. cbn [on_ok fst snd andb]. rewrite E. cbn. apply bytes_eqb_refl.
+    + reflexivity.
+    + exfalso. exact (unified_decode_total _ _ _ _ D).
   - (* CCtor *)
     cbn [run_case prop_case] in *. apply addr_eqb_eq in R. subst o.
     rewrite from_raw_spec. apply addr_eqb_refl.
+  - (* CEnc *)
+    cbn [run_case prop_case wf_case] in *.
+    apply andb_true_iff in W as [W Bd]. apply andb_true_iff in W as [Wa Wt]. unfold wf_addr in Wa. apply andb_true_iff in Wa as [Ws Wn].
+    apply andb_true_iff in R as [R1 R2].
+    apply bres_eqb_eq in R1. apply (option_eqb_true _ _ _ ares_eqb_eq) in R2. subst o back.
+    assert (En : exists s, encode_address (H_of t) (G_of t) a = Ok s).
+    { destruct a as [n k d|n items].
+      - cbn [spec_addr_ok] in Ws. apply andb_true_iff in Ws as [Ld _]. apply N.eqb_eq in Ld.
+        destruct k; try (eexists; reflexivity); apply raw_b32_encodes; [left | right]; auto.
+      - cbn [known_class] in K. destruct (spec_encodable (hrp_unified KAddr n) items) eqn:Se; [|discriminate].
+        exact (encodable_encodes _ _ KAddr n items Se). }
+    destruct En as [s E]. rewrite E in *. cbn [on_ok].
+    assert (Gd : match a with ARaw _ k _ => is_b58 k = true -> not_bech32 s | AUni _ _ => True end).
+    { destruct a as [n k d|]; [|exact I]. intros Kb. cbn [enc_guard] in Bd. rewrite shared_b58, Kb in Bd. apply not_bech32b_spec. exact Bd. }
+    rewrite (kind_roundtrip _ _ (H_of_bytes t Wt) (G_of_bytes t Wt) a s Ws E Gd).
+    destruct a as [n k d|n items]; cbn [norm_addr addr_eqb].
+    + apply net_eqb_eq in Wn. rewrite Wn, net_eqb_refl, bytes_eqb_refl. destruct k; reflexivity.
+    + rewrite net_eqb_refl, items_eqb_refl. reflexivity.
+  - (* CParse *)
+    cbn [run_case prop_case wf_case] in *.
+    apply andb_true_iff in W as [_ Wt]. apply andb_true_iff in R as [R1 R2].
+    apply ares_eqb_eq in R1. apply (option_eqb_true _ _ _ bres_eqb_eq) in R2. subst o re.
+    destruct (parse_address (H_of t) (G_of t) s) as [a|e|] eqn:P.
+    + destruct (parse_accept_canonical _ _ (H_of_bytes t Wt) (G_of_bytes t Wt) _ _ P) as [E Ws].
+      rewrite Ws. cbn [on_ok andb]. rewrite E. cbn. apply bytes_eqb_refl.
+    + reflexivity.
+    + exfalso. exact (parse_address_total _ _ _ P).
 Qed.
